@@ -106,7 +106,8 @@ def agree(case, o):
     # the other forms in which the library itself serialises (argument combinations of its dump
     # sites, the JSON text of the stdio writer), a repeated dump, a repeated validation of the same dict
     pv, fv = dict(p.get("variants") or {}), dict(f.get("variants") or {})
-    for k in ("second", "from_instance", "fresh_after_instances_edited", "input_intact", "reuse_error", "value_subclasses", "enum_members"):
+    for k in ("second", "from_instance", "fresh_after_instances_edited", "input_intact", "reuse_error", "value_subclasses", "enum_members",
+              "shared_subobjects", "tree_of_the_same"):
         pv[k], fv[k] = p.get(k), f.get(k)
     for k in sorted(pv):
         d = first_diff(pv.get(k), fv.get(k))
@@ -501,7 +502,7 @@ class ModelCases(Suite):
             for c in out:
                 if c["mode"] in ("random", "none", "magic"):
                     n += 1
-                    if n % 6:
+                    if n % 8:
                         c["forms"] = False
         return out
 
@@ -704,6 +705,25 @@ class FreshOrder(Suite):
                     steps += [step(cid, bad, valid=False)] * reps + [step(cid, good)]
                 steps += [step(cid, bad, valid=False), step(cid, good), step(cid, good)]
         out.append({"seq": "failures", "order": ["failures"], "steps": steps})
+        # dump histories: in a fresh process every class that has or reaches an aliased member is dumped
+        # FIRST in one mode (rotating over the modes), then in two others, then at the wire-name sites
+        modes = ["plain", "exclude_none", "names_json", "wire", "wire_all", "wire_json", "mcp", "site"]
+        hist_classes = [c for c in protocol_classes(S) if G.aliased(c) or ModelCases.reaches_alias(S, c)]
+        for k in range(len(modes) if budget != "quick" else 5):
+            rng = ctx.sub_rng(self.name, "history", k)
+            steps = []
+            G.force_all = True
+            try:
+                for i, cid in enumerate(hist_classes):
+                    first = modes[(k + i) % len(modes)]
+                    rest = [m for m in modes if m != first]
+                    rng.shuffle(rest)
+                    steps.append({"op": "history", "cls": cid, "wire": G.obj(cid, rng, extras="none"), "valid": True,
+                                  "modes": [first] + rest[:2] + ["site", "wire", "wire_json"],
+                                  "where": [S[cid]["module"], S[cid]["name"]]})
+            finally:
+                G.force_all = False
+            out.append({"seq": "dump-history", "order": ["dump-history-%d" % k], "steps": steps})
         # the library's own option SKIP_JSONRPC_VALIDATION, crossed with valid and malformed envelopes
         rng = ctx.sub_rng(self.name, "env")
         envs = []
@@ -733,7 +753,9 @@ class FreshOrder(Suite):
             if st["op"] == "setup":
                 continue
             r = None
-            if st["op"] == "validate" and st.get("valid", True):
+            if st["op"] == "history":
+                r = self.history_oracle(st, so)
+            elif st["op"] == "validate" and st.get("valid", True):
                 r = self.step_oracle(st, so)
             elif self.judge_agreement:
                 # invalid objects / envelopes under an option: the property does not say what must happen,
@@ -750,6 +772,9 @@ class FreshOrder(Suite):
         return None
 
     judge_agreement = False
+
+    def history_oracle(self, step, o):  # overridden per property
+        return None
 
     def kind(self, case, o):
         return "fresh-order/" + "+".join(case["order"])
@@ -896,6 +921,12 @@ class Constructors(Suite):
                         continue
                     kwargs[p["name"]] = self.arg(G, p["ty"], rng, 0, p["name"])
                 out.append({"module": c["module"], "qual": c["qual"], "kwargs": kwargs})
+                if i % 3 == 0 and '"$model"' in core.canon(kwargs):
+                    # the same call with SHARED sub-objects: every list argument carries its first item twice
+                    # (one instance referenced from two places), equal model arguments are one instance
+                    kw2 = {k: (v + v[:1] if isinstance(v, list) and v else v) for k, v in kwargs.items()}
+                    out.append({"module": c["module"], "qual": c["qual"], "kwargs": kw2, "share": True})
+                    out.append({"module": c["module"], "qual": c["qual"], "kwargs": kw2})
             # directed: every parameter that admits a string / an int given as a SUBCLASS instance and as an
             # enum member whose value looks like the other type ("12" for a str, 1 for an int)
             if not c.get("returns"):
